@@ -330,7 +330,7 @@ func runCheck(repo, verifDir, prop, tier string) int {
 		}
 		te := vc.newTEnv(vc.entry.clone(), vc.entry, pkg)
 		vc.oblige("lemma", "lemma:"+lm.Name, lm.Src, "lemma "+lm.Text, "true", te.goalFormula(lm.E), lm.Tags)
-		vc.discharge(SolveOpts{Dir: qdir, Timeouts: timeouts, Parallel: 16, Seed: seed}, cr.tally)
+		vc.discharge(SolveOpts{Dir: qdir, Timeouts: timeouts, Parallel: 16, Seed: seed, Second: tier == "thorough"}, cr.tally)
 		cr.vcs = append(cr.vcs, vc)
 		cr.nLemmas++
 	}
@@ -347,7 +347,7 @@ func runCheck(repo, verifDir, prop, tier string) int {
 		e.exemptNext = t.exempt
 		vc := e.verifyFunc(t.fn, t.ct, cr.slice, cr.safety, t.extra)
 		e.selfIface = nil
-		vc.discharge(SolveOpts{Dir: qdir, Timeouts: timeouts, Parallel: 16, Seed: seed}, cr.tally)
+		vc.discharge(SolveOpts{Dir: qdir, Timeouts: timeouts, Parallel: 16, Seed: seed, Second: tier == "thorough"}, cr.tally)
 		cr.vcs = append(cr.vcs, vc)
 	}
 	for _, t := range cr.targets {
@@ -625,6 +625,7 @@ func (cr *checkRun) report() int {
 		"havocked_callees":       keys(havocked),
 		"obligations_by_kind":    kinds,
 		"discharged_by_solver":   cr.tally.BySolver,
+		"second_solver_agreed":   cr.tally.Agreed,
 		"solver_seconds":         cr.tally.SolverSec,
 		"solver_queries":         cr.tally.Queries,
 		"samples":                samples,
